@@ -23,6 +23,8 @@ TECHNIQUE = "static analysis of built MIR: acquire/release pairing over return/u
 
 
 def run(facts, tr, rep):
+    _n_ops = check_no_panicking_time_arith(facts, tr, rep, "C07.NO-PANIC-ARITH", facts.crates["tower_resilience_bulkhead"].bodies)
+    rep.note("panicking Instant/Duration operators examined in the crate: %d" % _n_ops)
     bh = BH(facts, tr, rep)
     b = bh.cor
     if b is None:
